@@ -209,9 +209,21 @@ def run(tier, regenerate=True):
     if rep is not None:
         rep.close()
     chk.functions = {kk: {"mir_blocks_executed": v} for kk, v in sorted(blocks.items())}
+    # ---- the merge path: <Folder as FolderMerge>::merge replays received events onto the served folder and the index
+    from . import merge_replay as MR
+    mprog = H.load_program(MR.CRATES, regenerate=regenerate)
+    chk.extra["mir_regeneration_s"].update(mprog.timings)
+    msh = MR.shapes(tier)
+    chk.bounds["merge_replay"] = {"patches": len(msh), "events_per_patch_max": 2 if tier == "quick" else 3,
+                                  "quick_slice": "plus three-event patches touching one id three times",
+                                  "well_formed": "create of a non-live id, update/delete of a live id, rename, re-flag; merged into an empty folder"}
+    mres = par.map_entries(lambda s: MR.run_shape(mprog, s), msh)
+    MR.collect(chk, mres, "C02")
     chk.assumptions = [
-        "kernel only: the in-memory EncryptedEntry operations of Vault and FolderReducer; merges, force merges, the "
-        "vault mirror on disk or in sqlite and encryption are outside this check",
+        "kernels: the in-memory EncryptedEntry operations of Vault and FolderReducer, and the checked-merge replay "
+        "<Folder as FolderMerge>::merge over a harness access point (map id -> secret, decryption = identity) and a "
+        "harness event log (patch_checked accepts or conflicts nondeterministically); force merges, the vault mirror on "
+        "disk or in sqlite and encryption are outside this check",
         "one inductive step from every log of <= %d events after CreateVault (ids from a pool of two)" % max_n,
     ]
     return chk.finish(rule="one state = one path of build(reduce(L)); op; build(reduce(L.event)) for one log shape and one operation")
@@ -227,6 +239,12 @@ def confirmed(case, nat):
 
 def replay(path):
     case = json.load(open(path))
+    if case.get("op") == "model_only":
+        from . import merge_replay as MR
+        if MR.replay_model(case, PROP):
+            print("VIOLATION property=%s replay=%s" % (PROP, path))
+            return 1
+        return 0
     rep = Replayer("dev")
     nat = rep.run(case)
     rep.close()
